@@ -1142,6 +1142,9 @@ impl Engine for C14 {
             "fault.clock_set_ahead_in_an_earlier_killed_run",
             "probe.cache_directory_also_holds_foreign_files_with_wrong_rates",
             "probe.cache_directory_path_is_not_valid_utf8",
+            "probe.cache_directory_is_a_symbolic_link",
+            "probe.cache_year_files_are_symbolic_links",
+            "probe.cache_year_files_have_a_second_hard_link",
         ];
         let _ = tier;
         v
